@@ -715,9 +715,12 @@ class DefaultModelInputConverter(ModelInputConverter):
       # Clip in the scaled space first, so that un-scaling a large but finite
       # feature cannot overflow into inf (which would be reported as a missing
       # parameter below). NaN / inf inputs are left untouched.
-      array = np.where(
-          np.isfinite(array), np.clip(array, spec.bounds[0], spec.bounds[1]), array
-      )
+      lower, upper = spec.bounds
+      out_of_range = np.isfinite(array) & ((array < lower) | (array > upper))
+      # (In-range arrays are passed on untouched, so that un-scaling keeps
+      # running on the caller's array type and dtype.)
+      if np.any(out_of_range):
+        array = np.where(out_of_range, np.clip(array, lower, upper), array)
     array = self.scaler.backward_fn(array)
     return [self._to_parameter_value(v) for v in list(array.flatten())]
 
